@@ -191,7 +191,11 @@ impl Observer for LayoutOracle {
 /// file; a file that runs out of allowed seeks becomes the compaction candidate. Here the
 /// compaction thread is held at the start of its task (before it takes the lock) while lookups go
 /// on, so that further files run out of seeks while a candidate is already pending.
-fn case_seek_storm(out: &mut CaseOut, seed: u64, idx: u64) {
+/// `prop` = "C10": the layout is judged after every seek compaction. `prop` = "C07": every get of
+/// the storm is compared with the reference map instead (a seek-triggered compaction must not
+/// change what a reader sees).
+pub fn case_seek_storm(out: &mut CaseOut, seed: u64, idx: u64, prop: &str) {
+    let reads = prop == "C07";
     use crate::director::{director, COMPACTOR};
     use crate::gen::{self, Config, KeyFamily};
     use crate::simfs::SimFs;
@@ -203,15 +207,37 @@ fn case_seek_storm(out: &mut CaseOut, seed: u64, idx: u64) {
     let fs = SimFs::from_image(&crate::dbutil::root_image());
     let mut sess = Session::new(fs, cfg);
     if let Err(e) = sess.open() {
-        out.violate("C10/open-failed", json!({"error": e}));
+        out.violate(format!("{prop}/open-failed"), json!({"error": e}));
         return;
     }
     let pool = gen::key_pool(&mut rng, KeyFamily::Ascii, 40);
+    let storm_get = |sess: &Session, out: &mut CaseOut, k: &Vec<u8>, when: &str| {
+        let got = sess.get(k);
+        if reads {
+            out.add("storm_gets_checked", 1);
+            match got {
+                Err(e) => out.violate(format!("{prop}/seek-storm/read-error/{when}"), json!({"key": show(k), "error": e})),
+                Ok(got) => {
+                    let expected = sess.model.get(k);
+                    if got.as_ref() != expected {
+                        let class = match (expected, &got) {
+                            (Some(_), None) => "committed-value-missing",
+                            (None, Some(_)) => "deleted-or-unwritten-key-has-value",
+                            _ => "older-value",
+                        };
+                        out.violate(format!("{prop}/seek-storm/read-changed-by-seek-compaction/{class}/{when}"),
+                            json!({"key": show(k), "got": got.as_ref().map(|v| show(v)), "expected": expected.map(|v| show(v)),
+                                "files": sess.db().verif_files().iter().map(|f| format!("L{}#{}[{}..{}]", f.level, f.number, show(&f.smallest.user_key), show(&f.largest.user_key))).collect::<Vec<_>>()}));
+                    }
+                }
+            }
+        }
+    };
     // layered shape: every flush covers a sub-range of the pool with gaps (so that lookups of the
     // missing keys consult a second, deeper file). Templates: nested ranges; a narrow deep file at
     // one edge under a wide middle file under a narrow top file elsewhere; random ranges.
     let n = pool.len();
-    let template = [0u64, 1, 1, 2][(idx / 4 % 4) as usize];
+    let template = [0u64, 1, 3, 2][(idx / 4 % 4) as usize];
     let ranges: Vec<(usize, usize, usize)> = match template {
         0 => {
             let mut v = vec![(0, n - 1, 1)];
@@ -232,6 +258,16 @@ fn case_seek_storm(out: &mut CaseOut, seed: u64, idx: u64) {
             let edge = rng.range(2, 5) as usize;
             let top_lo = rng.range(edge as u64 + 6, (n - 12) as u64) as usize;
             vec![(0, edge, 1), (1, n - 2, 2), (top_lo, top_lo + rng.range(5, 9) as usize, rng.range(2, 3) as usize)]
+        }
+        3 => {
+            // a staircase: each flush overlaps only the previous one, so the first lands deep, the
+            // second above it and the last two both stay at level 0, overlapping each other while
+            // only the older one overlaps level 1; the newest has gaps that the older one fills
+            let a = rng.range(6, 11) as usize;
+            let b = a + rng.range(6, 11) as usize;
+            let c = b + rng.range(6, 11) as usize;
+            let j = |rng: &mut Rng| rng.range(2, 5) as usize;
+            vec![(0, a, 1), (a - j(&mut rng), b, 1), (b - j(&mut rng), c, 1), (c - j(&mut rng), (c + 8).min(n - 1), 2)]
         }
         _ => (0..rng.range(3, 6))
             .map(|_| {
@@ -267,7 +303,7 @@ fn case_seek_storm(out: &mut CaseOut, seed: u64, idx: u64) {
         let mut arrived = false;
         'storm: for _ in 0..400 {
             for k in &pool {
-                let _ = sess.get(k);
+                storm_get(&sess, out, k, "while-charging-seeks");
                 gets += 1;
                 if gets % 16 == 0 && d.is_arrived(gate) {
                     arrived = true;
@@ -282,14 +318,20 @@ fn case_seek_storm(out: &mut CaseOut, seed: u64, idx: u64) {
             // depend on the order of the pool
             for _ in 0..rng.range(110 * pool.len() as u64, 220 * pool.len() as u64) {
                 let k = rng.pick(&pool[..]);
-                let _ = sess.get(k);
+                storm_get(&sess, out, k, "while-the-worker-is-parked");
                 gets += 1;
             }
         }
         d.release(gate);
         out.add("storm_gets", gets);
         sess.wait_quiescent(Duration::from_secs(10));
-        oracle.check(&mut sess, out, if round == 0 { "after-seek-compaction" } else { "after-repeated-seek-compactions" });
+        if reads {
+            for k in &pool {
+                storm_get(&sess, out, k, "after-seek-compaction");
+            }
+        } else {
+            oracle.check(&mut sess, out, if round == 0 { "after-seek-compaction" } else { "after-repeated-seek-compactions" });
+        }
         if out.is_violated() || !arrived {
             break;
         }
@@ -298,10 +340,16 @@ fn case_seek_storm(out: &mut CaseOut, seed: u64, idx: u64) {
     if !out.is_violated() {
         let cfg2 = Config { reuse: rng.chance(0.5), ..cfg };
         if let Err(e) = sess.reopen(cfg2) {
-            out.violate("C10/open-failed/clean-reopen", json!({"error": e, "files": sess.fs.image().listing()}));
+            out.violate(format!("{prop}/open-failed/clean-reopen"), json!({"error": e, "files": sess.fs.image().listing()}));
             return;
         }
-        oracle.check(&mut sess, out, "after-reopen");
+        if reads {
+            for k in &pool {
+                storm_get(&sess, out, k, "after-reopen");
+            }
+        } else {
+            oracle.check(&mut sess, out, "after-reopen");
+        }
     }
     let seek_compactions = d.note_count("compaction.pick") - picks0;
     out.add("seek_triggered_compactions", seek_compactions);
@@ -317,7 +365,7 @@ fn case_seek_storm(out: &mut CaseOut, seed: u64, idx: u64) {
 pub fn run_case(tier: &str, seed: u64, idx: u64) -> CaseOut {
     if idx % 4 == 3 {
         let mut out = CaseOut::new();
-        case_seek_storm(&mut out, seed, idx);
+        case_seek_storm(&mut out, seed, idx, "C10");
         return out;
     }
     let mut out = CaseOut::new();
